@@ -235,7 +235,11 @@ def main(argv):
             if r.get('paths', 0) == 0 and o.kind == 'symx':
                 d['status'] = 'vacuous'
                 errors.append('%s case %r: no path reached the checks (vacuous)' % (o.name, _short(case)))
+        elif st == 'cex' and d['status'] == 'violated' and (d.get('replayed', 0) >= 4 or str(r.get('failed') or '').startswith('does not terminate')):
+            # this obligation already has replayed violations; further witnesses are listed, not replayed again
+            d['more_witnesses'] = d.get('more_witnesses', 0) + 1
         elif st == 'cex':
+            d['replayed'] = d.get('replayed', 0) + 1
             fname = '%s-%s-%d.json' % (pid, ''.join(c if c.isalnum() else '_' for c in o.name)[:60], r['case'])
             rp = os.path.join(out_dir, 'replays', fname)
             json.dump({'property': pid, 'obligation': o.name, 'tier': tier, 'case': _jsonable(case), 'cex': _jsonable(r.get('cex')),
@@ -244,10 +248,10 @@ def main(argv):
             env['PYTHONPATH'] = VERIF + ':' + REPO
             hang = str(r.get('failed') or '').startswith('does not terminate')
             try:
-                p = subprocess.run([REPLAY_PY, os.path.join(VERIF, 'lib', 'runner.py'), '--replay', rp], capture_output=True, text=True, timeout=300 if hang else 600, env=env)
+                p = subprocess.run([REPLAY_PY, os.path.join(VERIF, 'lib', 'runner.py'), '--replay', rp], capture_output=True, text=True, timeout=max(60, 3 * int(os.environ.get('VERIF_PATH_TIMEOUT', '60'))) if hang else 600, env=env)
                 rc, out = p.returncode, p.stdout + p.stderr
             except subprocess.TimeoutExpired:
-                rc, out = (1, 'REPRODUCED: the replay on the real code does not terminate either (killed after 300 s)') if hang else (2, 'replay timed out')
+                rc, out = (1, 'REPRODUCED: the replay on the real code does not terminate either (killed)') if hang else (2, 'replay timed out')
             if rc == 0 and o.kind == 'symx':
                 # the witness does not reproduce in a fresh process: state kept by the code under test may have leaked from an earlier
                 # path of the exploration. Explore this case again with every path in its own process and replay what that finds.
